@@ -106,6 +106,14 @@ func c09Raw(key [32]byte, counter [16]byte, in []byte, alias bool, extra int) er
 		if k != key {
 			return fmt.Errorf("%s modified the key", im.name)
 		}
+		// consecutive call on the same buffers: XORing the output in place with
+		// the same stream gives the input back
+		if err := catch(func() { im.f(out[:len(in)], out[:len(in)], &c, &k) }); err != nil {
+			return fmt.Errorf("%s second (in-place) call: %v", im.name, err)
+		}
+		if !bytes.Equal(out[:len(in)], in) {
+			return fmt.Errorf("%s(key=%x, counter=%x, len=%d): applying the stream twice on the same buffer does not restore the input (first difference at byte %d)", im.name, key, counter, len(in), firstDiff(out, in))
+		}
 	}
 	return nil
 }
@@ -174,6 +182,7 @@ func TestC09(t *testing.T) {
 	}
 
 	rapid.Check(t, func(rt *rapid.T) {
+		stc := setStale(rt)
 		key, kc := draw32(rt, "key")
 		n, lc := lenMix(rt, "len", 2000, 25, 64, 256)
 		in, fc := gen.Bytes(rt, "in", n)
@@ -204,7 +213,7 @@ func TestC09(t *testing.T) {
 			span, near := c09Span(ctr, nblocks)
 			nontrivial = nblocks >= 2 && near
 			keyStr = fmt.Sprintf("raw|%s|%s|%s|%d|%v", cc, span, gen.LenClass(n, 64), min(n/256, 4), alias)
-			c.Case(nontrivial, keyStr, "mode=raw", cc, span, lc, fc, kc, fmt.Sprintf("alias=%v", alias))
+			c.Case(nontrivial, keyStr, "mode=raw", cc, span, lc, fc, kc, stc, fmt.Sprintf("alias=%v", alias))
 			sample["counter_block"] = ev.Hex(counter[:])
 			sample["span"] = span
 		case "nonce8", "nonce24":
@@ -233,7 +242,7 @@ func TestC09(t *testing.T) {
 			}
 			nontrivial = nl == 24 && n > 0
 			keyStr = fmt.Sprintf("%s|%s|%d|%v", mode, gen.LenClass(n, 64), min(n/256, 4), alias)
-			c.Case(nontrivial, keyStr, "mode="+mode, lc, fc, kc, fmt.Sprintf("alias=%v", alias))
+			c.Case(nontrivial, keyStr, "mode="+mode, lc, fc, kc, stc, fmt.Sprintf("alias=%v", alias))
 			sample["nonce"] = ev.Hex(nonce)
 		}
 		if c.WantSample() {
@@ -249,7 +258,7 @@ func TestC09(t *testing.T) {
 				cst = draw16(rt, "hconst")
 				cl = "hsalsa20:other-constant"
 			}
-			var got [32]byte
+			got := stale32() // the destination holds junk beforehand
 			k, i, cc := key, in16, cst
 			salsa.HSalsa20(&got, &i, &k, &cc)
 			want := refnacl.HSalsa20(in16, key, cst)
@@ -268,7 +277,7 @@ func TestC09(t *testing.T) {
 			if rapid.Bool().Draw(rt, "rawBlock") {
 				copy(blk[:], gen.RandBytes(rt, "blk", 64))
 			}
-			var out [64]byte
+			out := stale64()
 			b2 := blk
 			salsa.Core208(&out, &b2)
 			w208 := refnacl.Salsa208(blk)
@@ -285,6 +294,7 @@ func TestC09(t *testing.T) {
 		}
 	})
 
+	staleSeed = 0x9e3779b97f4a7c15
 	// Directed: every counter next to the 2^32 and 2^64 boundaries x lengths
 	// around the 64-byte block and the 256-byte (4-block assembly loop) sizes.
 	var ctrs []uint64
